@@ -50,6 +50,10 @@ class Table(dict):
         return (self.name, key)
 
 
+class PyStub:
+    """marker base class for abstract objects supplied by a rule (their Python methods/attributes are the model of a repository class)"""
+
+
 class Obj:
     """abstract record: a dict of field values and the repo methods (AST) of its class;
     comparisons between records are dispatched to the *repository's* dunder methods,
@@ -97,6 +101,10 @@ def ev(n, env, funcs=None):
         txt = ast.unparse(n)
         if txt in env:
             return env[txt]
+        if txt in ('math.inf', 'np.inf', 'numpy.inf', 'sys.float_info.max'):
+            return float('inf')
+        if txt in ('math.pi', 'np.pi'):
+            return 3.141592653589793
         v = ev(n.value, env, funcs)
         if isinstance(v, Table) and hasattr(v, 'attrs') and n.attr in v.attrs:
             return v.attrs[n.attr]
@@ -104,13 +112,23 @@ def ev(n, env, funcs=None):
             if n.attr in v.fields:
                 return v.fields[n.attr]
             raise Unsupported('record has no field %s' % n.attr)
+        if isinstance(v, PyStub):
+            if hasattr(v, n.attr):
+                return getattr(v, n.attr)
+            raise Unsupported('abstract object has no attribute %s' % n.attr)
         raise Unsupported('attribute %s' % txt)
     if isinstance(n, ast.Subscript):
         base = ev(n.value, env, funcs)
         idx = ev(n.slice, env, funcs)
         if isinstance(base, Table):
             return base.read(idx)
-        if isinstance(base, (list, tuple)) and isinstance(idx, int):
+        if isinstance(base, PyStub) and hasattr(base, '__getitem__'):
+            return base[idx]
+        if isinstance(base, (list, tuple)) and isinstance(idx, int) and not isinstance(idx, bool):
+            if not -len(base) <= idx < len(base):
+                raise IndexError('index %d out of range (length %d) in %s' % (idx, len(base), ast.unparse(n)))
+            return base[idx]
+        if isinstance(base, (list, tuple)) and isinstance(idx, slice):
             return base[idx]
         raise Unsupported('subscript %s' % ast.unparse(n))
     if isinstance(n, ast.Constant):
@@ -128,6 +146,11 @@ def ev(n, env, funcs=None):
                 rv = ev(f.value, env, funcs)
             except Unsupported:
                 rv = None
+            if isinstance(rv, PyStub):
+                if not hasattr(rv, fname):
+                    raise Unsupported('abstract object has no method %s' % fname)
+                kw = {k.arg: ev(k.value, env, funcs) for k in n.keywords if k.arg}
+                return getattr(rv, fname)(*[ev(a, env, funcs) for a in n.args], **kw)
             if isinstance(rv, Obj) and fname in rv.methods:
                 rv.depth += 1
                 try:
@@ -148,23 +171,54 @@ def ev(n, env, funcs=None):
             raise Unsupported('real/imag of a non-number')
         if fname == 'isinstance' and len(n.args) == 2:
             return isinstance(ev(n.args[0], env, funcs), Obj)
-        args = [ev(a, env, funcs) for a in n.args]
+        args = []
+        for a_ in n.args:
+            if isinstance(a_, ast.Starred):
+                sv = ev(a_.value, env, funcs)
+                if not isinstance(sv, (list, tuple)):
+                    raise Unsupported('starred argument %s' % ast.unparse(a_))
+                args.extend(sv)
+            else:
+                args.append(ev(a_, env, funcs))
+        if fname == 'float' and len(args) == 1 and isinstance(args[0], str):
+            if args[0].lower().lstrip('+') in ('inf', 'infinity'):
+                return float('inf')
+            raise Unsupported('float of a string')
+        if isinstance(f, ast.Name) and fname in ('list', 'tuple') and len(args) <= 1 and not n.keywords:
+            if not args:
+                return [] if fname == 'list' else ()
+            if isinstance(args[0], (list, tuple, range)):
+                return list(args[0]) if fname == 'list' else tuple(args[0])
+        if isinstance(f, ast.Name) and fname == 'zip' and all(isinstance(a_, (list, tuple)) for a_ in args):
+            return [tuple(t) for t in zip(*args)]
+        if isinstance(f, ast.Name) and fname in ('reversed', 'sorted') and len(args) == 1 and isinstance(args[0], (list, tuple)) and not n.keywords:
+            return list(reversed(args[0])) if fname == 'reversed' else sorted(args[0])
+        if isinstance(f, ast.Name) and fname in ('all', 'any', 'sum') and len(args) == 1 and isinstance(args[0], (list, tuple)):
+            return {'all': all, 'any': any, 'sum': sum}[fname](args[0])
         if fname in ('min', 'max') and args:
             if len(args) == 1 and isinstance(args[0], (list, tuple)):
                 args = list(args[0])
             return (min if fname == 'min' else max)(args)
         if fname in ('abs', 'fabs') and len(args) == 1:
             return abs(args[0])
-        if fname == 'len' and len(args) == 1 and isinstance(args[0], (list, tuple, dict, str)):
+        if fname == 'len' and len(args) == 1 and (isinstance(args[0], (list, tuple, dict, str)) or (isinstance(args[0], PyStub) and hasattr(args[0], '__len__'))):
             return len(args[0])
         if fname == 'range' and isinstance(f, ast.Name) and all(isinstance(a, int) for a in args):
             return list(range(*args))
         if fname == 'enumerate' and isinstance(f, ast.Name) and len(args) == 1 and isinstance(args[0], (list, tuple)):
             return list(enumerate(args[0]))
+        if isinstance(f, ast.Name) and fname == 'type' and len(args) == 1:
+            return type(args[0])
+        if isinstance(f, ast.Name) and fname == 'str' and len(args) == 1 and isinstance(args[0], (type, str, int, float)):
+            return str(args[0])
         if fname in ('int', 'float', 'bool') and len(args) == 1:
             return {'int': int, 'float': float, 'bool': bool}[fname](args[0])
         if funcs and fname in funcs:
             return funcs[fname](*args)
+        if funcs and '__resolve__' in funcs:
+            target = funcs['__resolve__'](n, fname)
+            if target is not None:
+                return target(*args)
         if fname in env and callable(env[fname]):
             return env[fname](*args)
         raise Unsupported('call %s' % ast.unparse(n))
@@ -241,6 +295,27 @@ def ev(n, env, funcs=None):
             return a or b
         if t is ast.Pow:
             return a ** b
+    if isinstance(n, (ast.ListComp, ast.GeneratorExp)):
+        out = []
+
+        def gen(k, e_):
+            if k == len(n.generators):
+                out.append(ev(n.elt, e_, funcs))
+                return
+            g = n.generators[k]
+            it = ev(g.iter, e_, funcs)
+            if not isinstance(it, (list, tuple, range)):
+                raise Unsupported('comprehension over %s' % ast.unparse(g.iter))
+            for item in it:
+                e2 = dict(e_)
+                _bind(g.target, item, e2)
+                if all(ev(c_, e2, funcs) for c_ in g.ifs):
+                    gen(k + 1, e2)
+        gen(0, env)
+        return out
+    if isinstance(n, ast.Slice):
+        return slice(ev(n.lower, env, funcs) if n.lower is not None else None, ev(n.upper, env, funcs) if n.upper is not None else None,
+                     ev(n.step, env, funcs) if n.step is not None else None)
     if isinstance(n, ast.IfExp):
         return ev(n.body, env, funcs) if ev(n.test, env, funcs) else ev(n.orelse, env, funcs)
     if isinstance(n, ast.Tuple):
@@ -276,7 +351,9 @@ def run_block(stmts, env, funcs=None, limit=10000):
             cur = env[s.target.id]
             v = ev(s.value, env, funcs)
             t = type(s.op)
-            env[s.target.id] = cur + v if t is ast.Add else cur - v if t is ast.Sub else cur * v
+            if t not in (ast.Add, ast.Sub, ast.Mult, ast.Div, ast.Pow):
+                raise Unsupported('augmented assignment %s' % ast.unparse(s))
+            env[s.target.id] = cur + v if t is ast.Add else cur - v if t is ast.Sub else cur * v if t is ast.Mult else cur / v if t is ast.Div else cur ** v
         elif isinstance(s, ast.If):
             if ev(s.test, env, funcs):
                 r = run_block(s.body, env, funcs)
@@ -343,6 +420,12 @@ def _bind(t, v, env):
         env[t.id] = v
     elif isinstance(t, ast.Subscript):
         base = ev(t.value, env)
+        if isinstance(base, list):
+            k = ev(t.slice, env)
+            if not isinstance(k, int) or not -len(base) <= k < len(base):
+                raise IndexError('store index %r out of range in %s' % (k, ast.unparse(t)))
+            base[k] = v
+            return
         if not isinstance(base, Table):
             raise Unsupported('store into %s' % ast.unparse(t))
         base[ev(t.slice, env)] = v
@@ -351,3 +434,25 @@ def _bind(t, v, env):
             _bind(a, b, env)
     else:
         raise Unsupported('target %s' % ast.unparse(t))
+
+
+def make_func(fn, funcs=None, self_obj=None):
+    """a callable that interprets the repository function `fn` (ast.FunctionDef) with this module's interpreter"""
+    def call(*args, **kwargs):
+        params = [a.arg for a in fn.args.args]
+        env = {}
+        defaults = fn.args.defaults
+        for i, d in enumerate(defaults):
+            env[params[len(params) - len(defaults) + i]] = ev(d, {}, funcs)
+        if self_obj is not None and params and params[0] == 'self':
+            env['self'] = self_obj
+            params = params[1:]
+        for p_, a in zip(params, args):
+            env[p_] = a
+        env.update(kwargs)
+        body = fn.body
+        if body and isinstance(body[0], ast.Expr) and isinstance(body[0].value, ast.Constant) and isinstance(body[0].value.value, str):
+            body = body[1:]
+        kind, val = run_block(body, env, funcs)
+        return val if kind == 'return' else None
+    return call
